@@ -55,6 +55,7 @@ type retRec struct {
 	results []*Value
 	st      *State
 	pos     token.Pos
+	blk     *ssa.BasicBlock
 }
 
 type loopInfo struct {
@@ -89,7 +90,9 @@ func (f *Frame) analyseLoops() {
 	var dfs func(b *ssa.BasicBlock)
 	dfs = func(b *ssa.BasicBlock) {
 		seen[b] = true
-		for _, s := range b.Succs {
+		// successors in reverse, so that in reverse postorder a loop body precedes the loop's exit blocks
+		for k := len(b.Succs) - 1; k >= 0; k-- {
+			s := b.Succs[k]
 			if !seen[s] && !isBackEdge(b, s) {
 				dfs(s)
 			}
@@ -192,6 +195,9 @@ func (f *Frame) process(blocks []*ssa.BasicBlock, dry *dryRun) {
 	for _, b := range blocks {
 		var pc string
 		var cur *State
+		if f.top {
+			f.e.curBlk = b
+		}
 		if dry != nil && b == dry.head {
 			pc, cur = dry.pc, dry.st.clone()
 			for _, ph := range phisOf(b) {
@@ -211,6 +217,9 @@ func (f *Frame) process(blocks []*ssa.BasicBlock, dry *dryRun) {
 			continue
 		}
 		f.pc, f.st, f.cur = pc, cur, b
+		if f.top {
+			f.e.curBlk = b
+		}
 		f.block(b)
 		f.out[b] = f.st
 		f.outPC[b] = f.pc
@@ -234,6 +243,7 @@ func (f *Frame) loopModsDry(li *loopInfo, pc string, st *State) []string {
 	e := f.e
 	// snapshot
 	nLines, nObls := len(e.lines), len(e.obls)
+	savedBlk := e.curBlk
 	oblCount := map[string]int{}
 	for k, v := range e.oblCount {
 		oblCount[k] = v
@@ -281,6 +291,8 @@ func (f *Frame) loopModsDry(li *loopInfo, pc string, st *State) []string {
 	}
 	// restore
 	e.lines, e.obls, e.oblCount, e.compDecl = e.lines[:nLines], e.obls[:nObls], oblCount, compDecl
+	e.lineBlk = e.lineBlk[:nLines]
+	e.curBlk = savedBlk
 	f.vals, f.reach, f.out, f.outPC, f.defers, f.rets = vals, reach, out, outPC, defers, rets
 	f.dry, f.pc, f.st, f.cur = wasDry, savedPC, savedSt, savedCur
 	var res []string
@@ -347,6 +359,12 @@ func (f *Frame) mergePreds(b *ssa.BasicBlock, only func(p *ssa.BasicBlock) bool)
 		conds = append(conds, ins[i].cond)
 	}
 	pc := e.define("reach."+b.String(), sBool, or(conds...))
+	if f.top && len(conds) >= 2 && len(conds) <= 4 {
+		if e.blockCases == nil {
+			e.blockCases = map[*ssa.BasicBlock][]string{}
+		}
+		e.blockCases[b] = conds
+	}
 	// phis
 	for _, ins0 := range b.Instrs {
 		phi, ok := ins0.(*ssa.Phi)
@@ -496,8 +514,9 @@ func (f *Frame) enterLoop(b *ssa.BasicBlock, li *loopInfo) (string, *State) {
 	}
 	if !f.dry {
 		for _, cl := range invs {
-			g := f.evalClause(cl, st, b)
-			e.oblige(fmt.Sprintf("loop%d.established", li.ordinal), cl.Label, pc, g, "loop invariant holds on entry: "+cl.Src, b.Instrs[0].Pos(), cl.Props)
+			for _, g := range f.evalClauseSplit(cl, st, b) {
+				e.oblige(fmt.Sprintf("loop%d.established", li.ordinal), cl.Label, pc, g, "loop invariant holds on entry: "+cl.Src, b.Instrs[0].Pos(), cl.Props)
+			}
 		}
 	}
 	// havoc
@@ -539,6 +558,12 @@ func (f *Frame) enterLoop(b *ssa.BasicBlock, li *loopInfo) (string, *State) {
 			if g := f.frameGoal(c, st); g != "" {
 				e.assume(pc, g)
 			}
+		}
+	}
+	// implicit invariant: at the loop head every lock of an object that existed on loop entry is in the state it had then
+	for _, c := range mods {
+		if g := f.lockStable(c, li, st); g != "" {
+			e.assume(pc, g)
 		}
 	}
 	for _, cl := range invs {
@@ -594,8 +619,12 @@ func (f *Frame) loopBackEdge(from, head *ssa.BasicBlock) {
 		f.vals[ph] = v
 	}
 	for _, cl := range f.loopInvariants(li) {
-		g := f.evalClause(cl, f.out[from], head)
-		e.oblige(fmt.Sprintf("loop%d.preserved", li.ordinal), cl.Label, c, g, "loop invariant preserved: "+cl.Src, head.Instrs[0].Pos(), cl.Props)
+		for _, g := range f.evalClauseSplit(cl, f.out[from], head) {
+			e.oblige(fmt.Sprintf("loop%d.preserved", li.ordinal), cl.Label, c, g, "loop invariant preserved: "+cl.Src, head.Instrs[0].Pos(), cl.Props)
+			if strings.HasPrefix(cl.Label, "cut.") {
+				e.assume(c, g) // cut: available to the clauses after it
+			}
+		}
 	}
 	for ph, v := range saved {
 		f.vals[ph] = v
@@ -607,6 +636,26 @@ func (f *Frame) loopBackEdge(from, head *ssa.BasicBlock) {
 			}
 		}
 	}
+	for _, k := range li.mods {
+		if g := f.lockStable(k, li, f.out[from]); g != "" {
+			e.oblige(fmt.Sprintf("loop%d.preserved", li.ordinal), "locks."+k, c, g, "each iteration releases the locks it takes ("+k+")", head.Instrs[0].Pos(), nil)
+		}
+	}
+}
+
+// lockStable: lock component k has, for every object allocated on loop entry, the value it had on loop entry.
+func (f *Frame) lockStable(k string, li *loopInfo, st *State) string {
+	if !(strings.HasPrefix(k, "LW.") || strings.HasPrefix(k, "LR.")) {
+		return ""
+	}
+	e := f.e
+	now := e.comp(st, k, "")
+	was := e.comp(li.entrySt, k, "")
+	if now == was {
+		return ""
+	}
+	a := e.comp(li.entrySt, "alloc", arrSort(sBool))
+	return fmt.Sprintf("(forall ((r!k Int)) (! (=> (select %s r!k) (= (select %s r!k) (select %s r!k))) :pattern ((select %s r!k))))", a, now, was, now)
 }
 
 func (f *Frame) loopInvariants(li *loopInfo) []*Clause {
@@ -678,7 +727,7 @@ func (f *Frame) instr(ins ssa.Instruction) {
 		switch u := i.X.Type().Underlying().(type) {
 		case *types.Slice:
 			f.safety("bounds", and("(<= 0 "+idx.T+")", "(< "+idx.T+" (slen "+x.T+"))"), "index in range", i.Pos())
-			f.set(i, &Value{Loc: &Loc{Comp: e.elemComp(u.Elem()), Idx: []string{app("sarr", x.T), app("+", app("soff", x.T), idx.T)}, Type: u.Elem(), Root: u.Elem()}, Type: i.Type()})
+			f.set(i, &Value{Loc: &Loc{Comp: e.elemComp(u.Elem()), Idx: []string{app("sarr", x.T), app("idx", x.T, idx.T)}, Type: u.Elem(), Root: u.Elem()}, Type: i.Type()})
 		case *types.Pointer:
 			a := u.Elem().Underlying().(*types.Array)
 			if x.Loc != nil {
@@ -807,7 +856,7 @@ func (f *Frame) instr(ins ssa.Instruction) {
 		for _, r := range i.Results {
 			rs = append(rs, f.val(r))
 		}
-		f.rets = append(f.rets, retRec{pc: f.pc, results: rs, st: f.st.clone(), pos: i.Pos()})
+		f.rets = append(f.rets, retRec{pc: f.pc, results: rs, st: f.st.clone(), pos: i.Pos(), blk: f.cur})
 		f.pc = "false"
 	case *ssa.Panic:
 		if f.nopanic() {
@@ -1147,8 +1196,8 @@ func (f *Frame) sliceOp(i *ssa.Slice) {
 		if x.Loc != nil {
 			e.fail("slicing array inside struct unsupported")
 		}
-		t := app("mk-slice", x.T, lo, app("-", hi, lo), app("-", fmt.Sprint(a.Len()), lo))
-		f.set(i, term(e.define(f.id+"."+i.Name(), sSlice, t), sSlice, i.Type()))
+		t := app("mk-slice", x.T, lo, subT(hi, lo), subT(fmt.Sprint(a.Len()), lo))
+		f.set(i, term(t, sSlice, i.Type()))
 	default:
 		e.fail("Slice on %v", i.X.Type())
 	}
